@@ -10,6 +10,52 @@ def oracle(ids, key):
     ge = [i for i in ids if i >= key]
     return min(ge) if ge else min(ids)
 
+def stabilized_after_faults(ck, b):
+    """rings that reached their maintenance fixpoint the hard way: a member crashed (it stops answering, no leave protocol), another one did not
+    answer for one round, and two stabilize rounds of one node overlapped (scenario of C02).  'Once the ring has stabilized' is the same
+    premise: at the fixpoint every member must name the responsible node for every key."""
+    import ringlib, c02
+    sc = c02.overlapping_rounds_after_crash()
+    # keys between the nodes, looked up at every surviving member after the quiet period
+    lay = []
+    for i, it in enumerate(sc["layout"]):
+        lay += [it, {"k": "k%d" % i}]
+    sc = dict(sc, layout=lay, steps=list(sc["steps"]), name="stabilized-after-crash-and-overlapping-rounds")
+    members = ["n0", "n2", "n3"]
+    owner = {"k0": "n2", "k1": "n2", "k2": "n3", "k3": "n0"}      # n1 has crashed
+    r = 0
+    for k in sorted(owner):
+        for n in members:
+            r += 1
+            sc["steps"].append({"do": "start", "op": "lk%d" % r, "kind": "lookup", "at": n, "k": k})
+    ev = ringlib.run_scenarios(ck, [sc], binary=b, timeout=900)
+    settled = [e for e in ev if e.get("t") == "settled"]
+    begin = [e for e in ev if e.get("t") == "begin"][0]
+    rank = {name: rk for name, rk in begin["nodes"].items()}
+    if not settled or not settled[-1]["stable"]:
+        ck.notes.append("the ring of scenario %s did not reach a maintenance fixpoint: its lookups are not judged" % sc["name"])
+        return 0
+    n = 0
+    want_of = {}
+    for st in sc["steps"]:
+        if st.get("kind") == "lookup":
+            want_of[st["op"]] = (st["at"], st["k"], rank[owner[st["k"]]])
+    for e in ev:
+        if e.get("t") == "step" and e.get("op") in want_of and e.get("to") == "done":
+            at, k, want = want_of[e["op"]]
+            n += 1
+            res = e.get("res") or {}
+            ck.count(("faults", at, k), True)
+            if res.get("err") != "ok" or res.get("n") != want:
+                ck.violation("C01:after-crash:%s" % ("error" if res.get("err") != "ok" else "between"),
+                             "after a member crashed and two stabilize rounds of one node overlapped the ring reached a maintenance fixpoint; there FindSuccessor(%s) asked at "
+                             "%s returned %s, the responsible member is rank %d (members %s, keys between consecutive nodes)" % (k, at, json.dumps(res), want, members), sc)
+    if n == 0:
+        raise vf.Infra("scenario %s executed no lookup" % sc["name"])
+    ck.traces += 1
+    return n
+
+
 def run(ck):
     b = ck.build("chord")
     cases = []          # (ids, keys, expected-by-TLC or None, origin)
@@ -98,12 +144,14 @@ def run(ck):
                              % (keys[ki], ids[frm], ids, got, err, want), rep)
         if ci % max(1, len(cases) // 4) == 0:
             ck.sample({"origin": origin, "ids": ids, "some_lookups": [[ids[f], keys[k], ids[r] if r >= 0 else e] for f, k, r, e in o["lookups"][:6]]})
+    if ck.replay is None:
+        nlook += stabilized_after_faults(ck, b)
     ck.traces += len(cases)
     ck.evaluations += nlook
     ck.extra["lookups"] = nlook
     ck.rule = ("configurations = every member set of a 2^3-position ring (thorough: also B=4 up to 5 members, B=5 up to 3) from TLC, embedded at ids pos*2^(48-B)+1, "
                "plus seeded adversarial layouts (adjacent ids, 0 and 2^48-1, clusters at both ends, one cluster, random; 1..8 nodes, thorough ..24); each ring is "
                "built by real joins in seeded order and settled to a maintenance fixpoint; FindSuccessor is asked at every node for every grid position, "
-               "member ids, member ids +/- 1, 0, 2^48-1 and random ids; non-trivial = rings with more than one node; distinct = distinct id sets")
+               "member ids, member ids +/- 1, 0, 2^48-1 and random ids; plus one ring that reached its fixpoint after a crash and two overlapping stabilize rounds of one node; non-trivial = rings with more than one node; distinct = distinct id sets")
     ck.assumptions += ["'once the ring has stabilized' = a fixpoint of the real stabilize / checkPredecessor / fixFinger with background tasks parked",
                        "scaled embedding: real finger 48-B+k equals model finger k (ChordRing.tla)"]
